@@ -97,7 +97,8 @@ pub fn run(cfg: &Cfg) -> Report {
                 for id in ids.into_iter().take(k) {
                     nonce += 1;
                     let code = if rng.chance(1, 5) { 1 + rng.below(3) as i32 } else { 0 };
-                    let text = format!("nonce-{case}-{nonce}");
+                    // the closing dot keeps nonces prefix-free: results are located by substring search
+                    let text = format!("nonce-{case}-{nonce}.");
                     let res = if code == 0 { format!("\"{text}\"") } else { text.clone() };
                     cr.insert(id.to_string(), (code, res));
                     good.push((id, text, code));
@@ -107,7 +108,7 @@ pub fn run(cfg: &Cfg) -> Report {
                 // adversarial extras
                 for _ in 0..rng.below(3) {
                     nonce += 1;
-                    let text = format!("bogus-{case}-{nonce}");
+                    let text = format!("bogus-{case}-{nonce}.");
                     let id_text = match rng.below(4) {
                         0 if !answered.is_empty() => {
                             let a: Vec<u32> = answered.iter().cloned().filter(|i| !good.iter().any(|g| g.0 == *i)).collect();
